@@ -1585,35 +1585,66 @@ theorem isGdefTable_iff (s : Stmt) :
   | _ => simp [isGdefTable]
 
 /-- the model's `findTable` is the spec's "first `table GDEF` of the file" -/
-theorem findGdefTable_eq (f : File) : findGdefTable f = userGdef f := by
+theorem findGdefTable_eq (f : File) : findGdefTable f = firstGdef f := by
   induction f with
   | nil => rfl
   | cons s l ih =>
     by_cases h : isGdefTable s = true
     · obtain ⟨o, ext, body, rfl⟩ := (isGdefTable_iff s).1 h
-      simp [findGdefTable, userGdef, isGdefTable]
+      simp [findGdefTable, firstGdef, isGdefTable]
     · have h' : isGdefTable s = false := by simpa using h
       have e1 : findGdefTable (s :: l) = findGdefTable l := by simp [findGdefTable, h']
       rw [e1, ih]
-      unfold userGdef
+      unfold firstGdef
       rw [findSome?_cons]
       cases s with
       | block o k tag ext body =>
         cases k <;> simp_all [isGdefTable]
       | _ => rfl
 
-theorem userGdef_cons_other (s : Stmt) (l : File) (h : isGdefTable s = false) : userGdef (s :: l) = userGdef l := by
+theorem firstGdef_cons_other (s : Stmt) (l : File) (h : isGdefTable s = false) : firstGdef (s :: l) = firstGdef l := by
   rw [← findGdefTable_eq, ← findGdefTable_eq]; simp [findGdefTable, h]
+
+/-- the model's list of the statements of all `table GDEF` blocks is the spec's -/
+theorem gdefStatements_eq (f : File) : gdefStatements f = userGdef f := by
+  induction f with
+  | nil => rfl
+  | cons s l ih =>
+    have e : userGdef (s :: l) = userGdef [s] ++ userGdef l := by simp [userGdef]
+    rw [gdefStatements, ih, e]
+    congr 1
+    by_cases h : isGdefTable s = true
+    · obtain ⟨o, ext, body, rfl⟩ := (isGdefTable_iff s).1 h
+      simp [gdefBody, isGdefTable, userGdef]
+    · have h' : isGdefTable s = false := by simpa using h
+      cases s with
+      | block o k tag ext body => cases k <;> simp_all [gdefBody, isGdefTable, userGdef]
+      | _ => simp [gdefBody, isGdefTable, userGdef]
+
+/-- a file without a `table GDEF` has no GDEF statements -/
+theorem userGdef_of_no_table (f : File) (h : findGdefTable f = none) : userGdef f = [] := by
+  induction f with
+  | nil => rfl
+  | cons s l ih =>
+    by_cases hs : isGdefTable s = true
+    · obtain ⟨o, ext, body, rfl⟩ := (isGdefTable_iff s).1 hs
+      simp [findGdefTable, isGdefTable] at h
+    · have h' : isGdefTable s = false := by simpa using hs
+      have e1 : findGdefTable (s :: l) = findGdefTable l := by simp [findGdefTable, h']
+      have e : userGdef (s :: l) = userGdef [s] ++ userGdef l := by simp [userGdef]
+      rw [e, ih (e1 ▸ h), append_nil]
+      cases s with
+      | block o k tag ext body => cases k <;> simp_all [isGdefTable, userGdef]
+      | _ => simp [userGdef]
 
 theorem gdefTodo_eq (i : GdefIn) (f : File) :
     gdefTodo i f =
-      let user := ((userGdef f).getD []).map (itemKind i.kinds)
+      let user := (userGdef f).map (itemKind i.kinds)
       ⟨!user.contains .glyphClassDef && i.hasCats, !user.any isCaretKind && i.carets != 0⟩ := by
   unfold gdefTodo
-  rw [findGdefTable_eq]
-  cases userGdef f with
-  | none => simp
-  | some body => simp [gdefScan_eq]
+  cases h : findGdefTable f with
+  | none => simp [userGdef_of_no_table f h]
+  | some body => simp [gdefScan_eq, gdefStatements_eq]
 
 theorem count_replicate_ne {a b : GKind} (n : Nat) (h : a ≠ b) : (List.replicate n a).count b = 0 := by
   simp [List.count_replicate, h]
@@ -1625,7 +1656,7 @@ theorem C17_gdef_gen (i : GdefIn) (f : File) : holdsGdefGen i f (gdefGenOf i f) 
   unfold holdsGdefGen gdefGenOf gdefGen
   rw [gdefTodo_eq]
   simp only
-  generalize ((userGdef f).getD []).map (itemKind i.kinds) = user
+  generalize (userGdef f).map (itemKind i.kinds) = user
   by_cases h1 : GKind.glyphClassDef ∈ user <;> by_cases h2 : user.any isCaretKind = true <;>
     by_cases h3 : i.hasCats = true <;> by_cases h4 : i.carets = 0 <;>
     simp [h1, h2, h3, h4, List.count_replicate]
@@ -1635,7 +1666,7 @@ theorem gdefGen_length (i : GdefIn) (f : File) : (gdefGenOf i f).length = specGd
   unfold specGdefCount gdefGenOf gdefGen
   rw [gdefTodo_eq]
   simp only
-  generalize ((userGdef f).getD []).map (itemKind i.kinds) = user
+  generalize (userGdef f).map (itemKind i.kinds) = user
   by_cases h1 : GKind.glyphClassDef ∈ user <;> by_cases h2 : user.any isCaretKind = true <;>
     by_cases h3 : i.hasCats = true <;> by_cases h4 : i.carets = 0 <;> simp [h1, h2, h3, h4] <;> omega
 
@@ -1656,18 +1687,18 @@ theorem C17_gdef_place (items : List Nat) (g : Nat) (f : File) (n : Nat) (hn : i
     rw [hb, hne]
     simp only [Bool.false_eq_true, ↓reduceIte]
     induction f with
-    | nil => simp [userGdef, gdefWrite_nil]
+    | nil => simp [firstGdef, gdefWrite_nil]
     | cons s l ih =>
       by_cases h : isGdefTable s = true
       · obtain ⟨o, ext, body, rfl⟩ := (isGdefTable_iff s).1 h
         rw [gdefWrite_cons_table]
-        simp [userGdef, hn, notGen]
+        simp [firstGdef, hn, notGen]
       · have h' : isGdefTable s = false := by simpa using h
-        rw [gdefWrite_cons_other _ _ _ _ h', userGdef_cons_other _ _ h']
-        cases hu : userGdef l with
+        rw [gdefWrite_cons_other _ _ _ _ h', firstGdef_cons_other _ _ h']
+        cases hu : firstGdef l with
         | some body =>
           rw [hu] at ih
-          simp only [userGdef_cons_other _ _ h', length_cons] at ih ⊢
+          simp only [firstGdef_cons_other _ _ h', length_cons] at ih ⊢
           simpa using ih
         | none =>
           rw [hu] at ih
@@ -1678,22 +1709,23 @@ theorem C17_gdef_place (items : List Nat) (g : Nat) (f : File) (n : Nat) (hn : i
           | nil => rw [hg] at h1; simp at h1
           | cons a t => rw [hg] at h3; simpa [getLast?_cons_cons] using h3
 
-/-- hand-written ligature carets - by position or by contour point index - are not generated a second time -/
+/-- hand-written ligature carets - by position or by contour point index, in whichever `table GDEF` block of the file -
+are not generated a second time -/
 theorem C17_gdef_keeps_carets (i : GdefIn) (f : File)
-    (h : (((userGdef f).getD []).map (itemKind i.kinds)).any isCaretKind = true) :
+    (h : ((userGdef f).map (itemKind i.kinds)).any isCaretKind = true) :
     GKind.caretByPos ∉ gdefGenOf i f := by
   have hg := C17_gdef_gen i f
   unfold holdsGdefGen at hg
   simp only [h, ↓reduceIte, Bool.and_eq_true, beq_iff_eq] at hg
   exact count_eq_zero.1 hg.1.2
 
-/-- hand-written glyph classes are not generated a second time -/
+/-- hand-written glyph classes - in whichever `table GDEF` block of the file - are not generated a second time -/
 theorem C17_gdef_keeps_classes (i : GdefIn) (f : File)
-    (h : GKind.glyphClassDef ∈ ((userGdef f).getD []).map (itemKind i.kinds)) :
+    (h : GKind.glyphClassDef ∈ (userGdef f).map (itemKind i.kinds)) :
     GKind.glyphClassDef ∉ gdefGenOf i f := by
   have hg := C17_gdef_gen i f
   unfold holdsGdefGen at hg
-  have hc : (((userGdef f).getD []).map (itemKind i.kinds)).contains GKind.glyphClassDef = true := by simpa using h
+  have hc : ((userGdef f).map (itemKind i.kinds)).contains GKind.glyphClassDef = true := by simpa using h
   simp only [hc, Bool.not_true, Bool.false_and, Bool.false_eq_true, ↓reduceIte, Bool.and_eq_true, beq_iff_eq] at hg
   exact count_eq_zero.1 hg.1.1
 
@@ -1803,6 +1835,16 @@ example : holdsStep (.gdef exGi) exG [.leaf 1, .block (.user 2) .table "GDEF" fa
 /-- only the glyph classes are hand-written: the caret is generated, inside the user's table -/
 example : gdefStep { exGi with kinds := [(3, .glyphClassDef)] } exG
     = [.leaf 1, .block (.user 2) .table "GDEF" false [.leaf 3, .leaf 4, .gen 41]] := by decide
+/-- the GDEF table written in two blocks, the statements in the second: nothing is generated -/
+def exG2 : File := [.block (.user 5) .table "GDEF" false [], .leaf 1, .block (.user 2) .table "GDEF" false [.leaf 3, .leaf 4]]
+example : gdefStep exGi exG2 = exG2 ∧ gdefGenOf exGi exG2 = [] := by decide
+/-- COUNTEREXAMPLE to the old rule (scan of the first block only, ufo2ft before the repair): on the same file it
+writes a second GlyphClassDef and a second caret for the glyph into the first block - the property's predicates refuse -/
+example : gdefGenOfFirstBlock exGi exG2 = [.glyphClassDef, .caretByPos] ∧
+    gdefStepFirstBlock exGi exG2 = [.block (.user 5) .table "GDEF" false [.gen 41, .gen 42], .leaf 1,
+                                    .block (.user 2) .table "GDEF" false [.leaf 3, .leaf 4]] ∧
+    holdsGdefGen exGi exG2 (gdefGenOfFirstBlock exGi exG2) = false ∧
+    holdsStep (.gdef exGi) exG2 (gdefStepFirstBlock exGi exG2) = false := by decide
 /-- no table: both are generated in a new one at the end -/
 example : gdefStep exGi [.leaf 1] = [.leaf 1, .gen (.other 41)] ∧ gdefGenOf exGi [.leaf 1] = [.glyphClassDef, .caretByPos] := by decide
 
